@@ -61,40 +61,81 @@ def run(prog: Program, res: Result) -> None:
         return
     pre = body[:first_hook]
     guards = {"config": None, "workers": None, "mode": None}
+    resolver0 = Resolver(prog, None)
+
+    def raises_value_error(stmts) -> bool:
+        return any(isinstance(x, ast.Raise) and isinstance(x.exc, ast.Call) and dotted(x.exc.func) == "ValueError" for x in stmts)
+
+    def path_condition(node) -> list:
+        """tests of the enclosing `if`s inside the prologue (with polarity) for a node"""
+        conds = []
+        cur = node
+        while cur is not None and cur is not opt.node:
+            p = parent(cur)
+            if isinstance(p, ast.If):
+                in_body = any(cur is x for x in p.body)
+                conds.append((p.test, in_body))
+            cur = p
+        return conds
+
+    def atoms_of_path(conds) -> set:
+        out = set()
+        for (t, pol) in conds:
+            try:
+                f = to_formula(t, {}, {})
+                if not pol:
+                    from ..frm import f_not
+                    f = f_not(f)
+                d = dnf(f)
+            except FrmUnknown:
+                return {"?"}
+            if len(d) != 1:
+                return {"?"}
+            out |= set(next(iter(d)))
+        return out
     for st in pre:
-        if isinstance(st, ast.If):
-            t = norm(st.test)
-            if t in ("not self._config", "self._config is None") and any(isinstance(x, ast.Raise) for x in st.body):
-                guards["config"] = st
-            for n in ast.walk(st):
-                if isinstance(n, ast.If) and isinstance(n.test, ast.Compare) and dotted(n.test.left) == "workers" and len(n.test.ops) == 1 \
-                        and any(isinstance(x, ast.Raise) for x in n.body):
-                    op, c = n.test.ops[0], n.test.comparators[0]
-                    if (isinstance(op, ast.LtE) and isinstance(c, ast.Constant) and c.value == 0) or \
-                            (isinstance(op, ast.Lt) and isinstance(c, ast.Constant) and c.value == 1):
-                        # must be reached whenever workers is not None
-                        outer = parent(n)
-                        if outer is opt.node or (isinstance(outer, ast.If) and norm(outer.test) == "workers is not None" and n in outer.body
-                                                 and parent(outer) is opt.node):
-                            guards["workers"] = n
-                if isinstance(n, ast.Try):
-                    conv = [c for c in ast.walk(n) if isinstance(c, ast.Call) and dotted(c.func) == "ModeSolver" and c.args and dotted(c.args[0]) == "mode"]
-                    handlers_ok = n.handlers and all(any(isinstance(x, ast.Raise) for x in h.body) for h in n.handlers)
-                    outer = parent(n)
-                    if conv and handlers_ok and (outer is opt.node or (isinstance(outer, ast.If) and norm(outer.test) == "mode is not None"
-                                                                       and parent(outer) is opt.node)):
-                        guards["mode"] = n
         for n in ast.walk(st):
-            pass
-    # bare ModeSolver(mode) conversion at top level also validates (raises ValueError itself)
-    if guards["mode"] is None:
-        for st in pre:
-            for n in ast.walk(st):
-                if isinstance(n, ast.Call) and dotted(n.func) == "ModeSolver" and n.args and dotted(n.args[0]) == "mode":
-                    if not any(isinstance(a, ast.Try) for a in ancestors(n)):
-                        outer = st
-                        if st in body and (not isinstance(st, ast.If) or norm(st.test) == "mode is not None"):
-                            guards["mode"] = n
+            if isinstance(n, ast.If) and raises_value_error(n.body):
+                at = atoms_of_path(path_condition(n.body[0]))
+                if at and at <= {"not self._config", "self._config is None", "!self._config"} or at == {"!self._config"}:
+                    guards["config"] = n
+                if at & {"workers <= 0", "workers < 1"} and at <= {"workers <= 0", "workers < 1", "workers is not None"}:
+                    guards["workers"] = n
+        if isinstance(st, ast.If) and norm(st.test) in ("not self._config", "self._config is None") and raises_value_error(st.body):
+            guards["config"] = st
+
+    def mode_conversions(fi_, node, arg_name, depth=2):
+        """ModeSolver(<arg_name>) calls in `node`, or in package functions it calls with <arg_name> (one level)"""
+        found = []
+        for n in ast.walk(node):
+            if isinstance(n, ast.Call) and dotted(n.func) == "ModeSolver" and n.args and dotted(n.args[0]) == arg_name:
+                found.append((fi_, n))
+            elif isinstance(n, ast.Call) and depth > 0 and any(dotted(a) == arg_name for a in n.args):
+                for t in resolver0.callee(fi_, n):
+                    if isinstance(t, FuncInfo) and t.module.name.startswith(PKG):
+                        params = t.params
+                        off = 1 if (t.is_method and params and params[0] in ("self", "cls") and not t.is_static) else 0
+                        for i, a in enumerate(n.args):
+                            if dotted(a) == arg_name and i + off < len(params):
+                                found.extend(mode_conversions(t, t.node, params[i + off], depth - 1))
+        return found
+    helper_nodes = []
+    for st in pre:
+        for (cfi, conv) in mode_conversions(opt, st, "mode"):
+            # conditions inside optimize() on the way to the (call leading to the) conversion: only `mode is not None`
+            anchor = conv if cfi is opt else None
+            if anchor is None:
+                for n in ast.walk(st):
+                    if isinstance(n, ast.Call) and any(isinstance(t, FuncInfo) and t is cfi for t in resolver0.callee(opt, n)):
+                        anchor = n
+            at = atoms_of_path(path_condition(anchor)) if anchor is not None else {"?"}
+            trys = [a for a in ancestors(conv) if isinstance(a, ast.Try)]
+            handlers_ok = all(h.type is not None and dotted(h.type) == "ValueError" and raises_value_error(h.body)
+                              for t_ in trys for h in t_.handlers)
+            if at <= {"mode is not None"} and handlers_ok:
+                guards["mode"] = conv
+                if cfi is not opt:
+                    helper_nodes.append(cfi)
     msgs = {"config": "a missing configuration is not rejected with ValueError before the first hook runs",
             "workers": "a non-positive worker count is not rejected (`workers <= 0`) before the first hook runs",
             "mode": "an unknown mode is not rejected (ModeSolver(mode)) before the first hook runs"}
@@ -102,7 +143,7 @@ def run(prog: Program, res: Result) -> None:
         res.ob(node is not None, f"{M.relpath}:{getattr(node, 'lineno', 0)} entry guard `{g}` precedes {norm(body[first_hook], 40)}", f"guard:{g}")
         if node is None:
             bad("R1-entry-guard", opt.node, f"optimize(): {msgs[g]}", key=f"abstract.OptimizationAbstract.optimize::guard {g}")
-    for st in pre:
+    for st in list(pre) + [h.node for h in helper_nodes]:
         for n in ast.walk(st):
             if isinstance(n, ast.Raise):
                 exc = dotted(n.exc.func) if isinstance(n.exc, ast.Call) else dotted(n.exc) if n.exc is not None else "re-raise"
@@ -121,17 +162,33 @@ def run(prog: Program, res: Result) -> None:
     # ------------------------------------------------------------------ R2
     task = prog.cls(prog.TASK)
     okw = False
+    from ..frm import canon_expr, subst
     for m in task.methods.values():
         decs = [norm(d) for d in m.node.decorator_list]
         if not any("validator" in d for d in decs):
             continue
+        env = {}
+        for n in ast.walk(m.node):
+            if isinstance(n, ast.Assign) and len(n.targets) == 1 and isinstance(n.targets[0], ast.Name):
+                env[n.targets[0].id] = n.value
         for n in ast.walk(m.node):
             if isinstance(n, ast.If) and any(isinstance(x, ast.Raise) and isinstance(x.exc, ast.Call) and dotted(x.exc.func) == "ValueError" for x in n.body):
-                txt = norm(n.test, 200)
-                if "objective_weights" in txt and (">= 0" in txt or "< 0" in txt):
-                    # `not all(w >= 0)` or `any(w < 0)`
-                    neg = isinstance(n.test, ast.UnaryOp) and isinstance(n.test.op, ast.Not)
-                    if (neg and ">= 0" in txt and ("all(" in txt)) or ((not neg) and "< 0" in txt and "any(" in txt):
+                try:
+                    lits = set()
+                    for d in dnf(to_formula(n.test, env, {})):
+                        lits |= set(d)
+                except FrmUnknown:
+                    lits = set()
+                for lit in lits:
+                    neg = lit.startswith("!")
+                    core = lit[1:] if neg else lit
+                    if "objective_weights" not in core:
+                        continue
+                    c = core.replace("numpy.", "np.")
+                    nonneg_all = ("all(" in c) and ("0 <= np.array(self.objective_weights)" in c or "0 <= self.objective_weights" in c
+                                                      or ("0 <=" in c and "for" in c))
+                    neg_any = ("any(" in c) and ("< 0" in c)
+                    if (neg and nonneg_all) or ((not neg) and neg_any):
                         okw = True
     res.ob(okw, f"{task.loc()} Task rejects negative objective weights", "task-weights")
     if not okw:
@@ -188,6 +245,21 @@ def run(prog: Program, res: Result) -> None:
                                     and nm is not None and dotted(t.args[0]) == nm and "list" in norm(t.args[1]):
                                 in_body = any(x is n for b in ([a.body] if isinstance(a, ast.IfExp) else a.body) for x in ast.walk(b))
                                 guarded = (in_body and neg) or ((not in_body) and not neg)
+                    if not guarded and nm is not None:
+                        # `if isinstance(nm, list): return ...` earlier in an enclosing block guards what follows it
+                        cur = n
+                        while cur is not None and cur is not f.node and not guarded:
+                            p_ = parent(cur)
+                            for fld in ("body", "orelse"):
+                                blk = getattr(p_, fld, None)
+                                if isinstance(blk, list) and cur in blk:
+                                    for prev in blk[:blk.index(cur)]:
+                                        if isinstance(prev, ast.If) and prev.body and isinstance(prev.body[-1], (ast.Return, ast.Raise)):
+                                            t = prev.test
+                                            if isinstance(t, ast.Call) and isinstance(t.func, ast.Name) and t.func.id == "isinstance" \
+                                                    and len(t.args) == 2 and dotted(t.args[0]) == nm and "list" in norm(t.args[1]):
+                                                guarded = True
+                            cur = p_
                     key = construct_key(prog, n, f.module)
                     res.ob(guarded, f"{f.module.relpath}:{n.lineno} {norm(n, 60)} guarded={guarded}", key)
                     if not guarded:
